@@ -34,7 +34,62 @@ DEFS = ["(Definition/MyDef,(Blue,Red))", "(Definition/ValDef/#,(Green,Label/#))"
         "(Definition/AltDef,(Blue,Red))", "(Definition/LenDef/#,(Distance/#,Green))",
         # placeholder tag with a sibling (tag / group) that shares its text up to the '#'
         "(Definition/CueDef/#,(Label/#,Label/Fixation))",
-        "(Definition/TwoDef/#,((Distance/#,Red),(Distance/2 m,Blue)))"]
+        "(Definition/TwoDef/#,((Distance/#,Red),(Distance/2 m,Blue)))"] + []
+
+# SHAPES of declared definitions as an input dimension of the Def / Def-expand rules:
+# (name, declaration, takes value, contents of the expansion as a function of the value)
+DEF_SHAPES = [
+    ("EmptyDef", "(Definition/EmptyDef)", False, lambda v: None),                      # no contents at all
+    ("OneDef", "(Definition/OneDef,(Blue))", False, lambda v: ["Blue"]),               # one tag
+    ("NestDef", "(Definition/NestDef,(Blue,(Red,(Green))))", False, lambda v: ["Blue", ["Red", ["Green"]]]),
+    ("GrpDef", "(Definition/GrpDef,((Blue,Red)))", False, lambda v: [["Blue", "Red"]]),  # one group only
+    ("PhOneDef", "(Definition/PhOneDef/#,(Label/#))", True, lambda v: ["Label/" + v]),
+    ("PhNestDef", "(Definition/PhNestDef/#,(Blue,(Red,Label/#)))", True, lambda v: ["Blue", ["Red", "Label/" + v]]),
+]
+SHAPE_DEFS = [d[1] for d in DEF_SHAPES]
+
+
+def def_shape_cases(rng, V, n_cases):
+    """Conforming Def / Def-expand of every definition shape, and ONE alteration of the Def-expand group
+    (member added / removed / replaced, group added) => DEF_EXPAND_INVALID."""
+    out = []
+    for _ in range(n_cases):
+        name, _, takes, contents = rng.choice(DEF_SHAPES)
+        v = rng.choice(["abc", "x1", "Name-2"])
+        ref = name + ("/" + v if takes else "")
+        body = contents(v)
+        good = ["Def-expand/" + ref] + ([deep(body)] if body is not None else [])
+        x = rng.random()
+        if x < 0.25:
+            out.append(("Def/" + ref, None, "v_def_shape_" + name))
+        elif x < 0.55:
+            g = deep(good)
+            if len(g) > 1 and rng.random() < 0.4:
+                g = g[::-1]
+            out.append((g, None, "v_defexpand_shape_" + name))
+        else:
+            g = deep(good)
+            extra = rng.choice(V.plain)["short"]
+            how = rng.choice(["add_tag", "add_group", "add_inner", "remove", "replace"])
+            if body is None or how == "add_tag":
+                if how in ("add_group", "add_inner") or (body is None and rng.random() < 0.5):
+                    g.append([extra] if rng.random() < 0.6 else [extra, ["Blue"]])
+                else:
+                    g.append(extra)
+            elif how == "add_group":
+                g.append([extra])
+            elif how == "add_inner":
+                g[1].append(extra)
+            elif how == "remove":
+                if len(g[1]) > 1:
+                    g[1].pop(rng.randrange(len(g[1])))
+                else:
+                    g.pop(1)
+            else:
+                g[1][rng.randrange(len(g[1]))] = extra
+            out.append((g, "DEF_EXPAND_INVALID", "defexpand_shape_altered_" + name))
+    return out
+
 
 # Definition NAMES as an input dimension (schemas with the 8.3 character rules only): ASCII, plain non-ASCII letters,
 # and letters whose lower() differs from their casefold() (sharp s, long s, final sigma, ligatures, Cherokee, ...)
